@@ -64,6 +64,9 @@ func ValueTypes() []VT {
 		VT{"castInt", "cast", func(f *dsl.Field) { f.T = dsl.Int32; f.CastType = "MyInt" }, true, false, true},
 		VT{"castForeignFloat", "cast", func(f *dsl.Field) { f.T = dsl.Double; f.CastType = dsl.TFX + ".Duration" }, true, false, true},
 		VT{"castForeignInt", "cast", func(f *dsl.Field) { f.T = dsl.Int64; f.CastType = dsl.TFX + ".Seconds" }, true, false, true},
+		VT{"embedAuthPtr", "embedded", func(f *dsl.Field) { f.T = dsl.Msg; f.Ref = "Auth"; f.Embed = true; f.Name = "Auth" }, false, false, false},
+		VT{"embedLimitsPtr", "embedded", func(f *dsl.Field) { f.T = dsl.Msg; f.Ref = "Limits"; f.Embed = true; f.Name = "Limits" }, false, false, false},
+		VT{"embedRichVal", "embedded", func(f *dsl.Field) { f.T = dsl.Msg; f.Ref = "Rich"; f.Embed = true; f.Name = "Rich"; nn(f) }, false, false, false},
 		VT{"customBool", "custom", func(f *dsl.Field) { f.T = dsl.Bool; f.CustomType = "BoolCustom" }, true, false, false},
 		VT{"customString", "custom", func(f *dsl.Field) { f.T = dsl.String; f.CustomType = "StrCustom" }, false, false, false},
 		VT{"customBytes", "custom", func(f *dsl.Field) { f.T = dsl.Bytes; f.CustomType = "BytesCustom" }, false, false, false},
@@ -120,6 +123,19 @@ func library() (map[string]*dsl.Message, map[string]*dsl.EnumDecl) {
 		{Name: "Em", Num: 12, T: dsl.Msg, Ref: "Empty", Nullable: dsl.B(false)},
 		{Name: "AltS", Num: 20, T: dsl.String, Oneof: "Alt"},
 		{Name: "AltL", Num: 21, T: dsl.Msg, Ref: "Leaf", Oneof: "Alt"},
+	}})
+	add(&dsl.Message{Name: "Auth", Oneofs: []string{"Method"}, Fields: []*dsl.Field{
+		{Name: "User", Num: 1, T: dsl.String},
+		{Name: "Token", Num: 2, T: dsl.String, Oneof: "Method"},
+		{Name: "Cert", Num: 3, T: dsl.Msg, Ref: "Leaf", Oneof: "Method"},
+		{Name: "Scopes", Num: 4, T: dsl.String, Card: dsl.Repeated},
+	}})
+	add(&dsl.Message{Name: "Limits", Oneofs: []string{"Window"}, Fields: []*dsl.Field{
+		{Name: "Quotas", Num: 1, T: dsl.Int64, Card: dsl.Map},
+		{Name: "Burst", Num: 2, T: dsl.Int32, Oneof: "Window"},
+		{Name: "Period", Num: 3, T: dsl.Msg, Ref: dsl.Duration, StdDur: true, Oneof: "Window"},
+		{Name: "Flags", Num: 4, T: dsl.Bool, CustomType: "BoolCustom", Card: dsl.Repeated},
+		{Name: "Note", Num: 5, T: dsl.String},
 	}})
 	enums := map[string]*dsl.EnumDecl{"Mode": {Name: "Mode", Values: []string{"MODE_A", "MODE_B", "MODE_C"}}}
 	return msgs, enums
@@ -236,6 +252,9 @@ func Cards(vt VT) []string {
 func F1(namings ...string) []*Case {
 	var out []*Case
 	for _, vt := range ValueTypes() {
+		if vt.Class == "embedded" {
+			continue // embedded shapes: embedCases below and the pair family
+		}
 		for _, card := range Cards(vt) {
 			for _, nm := range namings {
 				f, extra, oneofs := shapeField(vt, card, nm, 1)
@@ -327,6 +346,11 @@ func Representatives() [][2]string {
 	}
 }
 
+// PairRepresentatives are the representatives of the pair family F3: the shape classes plus embedded messages.
+func PairRepresentatives() [][2]string {
+	return append(Representatives(), [2]string{"embedAuthPtr", "single"}, [2]string{"embedLimitsPtr", "single"}, [2]string{"embedRichVal", "single"})
+}
+
 // Positions P1..P6 (DESIGN.md §3.3).
 var Positions = []string{"P1nullable", "P2nonnull", "P3listptr", "P3listval", "P4mapptr", "P4mapval", "P5oneof", "P6embedval", "P6embedptr"}
 
@@ -402,12 +426,40 @@ func F2(reps [][2]string, deep bool) []*Case {
 	return out
 }
 
+// F2Sample covers every ordered pair of positions at depth 2 once, rotating through the representatives.
+func F2Sample(reps [][2]string) []*Case {
+	var out []*Case
+	n := 0
+	for _, pos2 := range Positions {
+		for _, pos := range Positions {
+			r := reps[n%len(reps)]
+			n++
+			vt := VTByName(r[0])
+			f, extra, oneofs := shapeField(vt, r[1], "X", 1)
+			inner := &dsl.Message{Name: "Inner", Oneofs: oneofs, Fields: append([]*dsl.Field{f}, extra...)}
+			mid := wrap("Mid", "Inner", pos)
+			root2 := wrap("Root", "Mid", pos2)
+			out = append(out, &Case{
+				Label:  fmt.Sprintf("F2/%s>%s/%s/%s", pos2, pos, r[1], vt.Name),
+				Family: "F2d",
+				Tags:   map[string]string{"card": r[1], "vt": vt.Name, "class": vt.Class, "pos": pos2 + ">" + pos},
+				File:   newFile(root2, mid, inner),
+				Cfg:    BaseConfig("Root"),
+			})
+		}
+	}
+	return out
+}
+
 // F3 is the pair family: every unordered pair of representatives in one message.
 func F3(reps [][2]string) []*Case {
 	var out []*Case
 	for i := 0; i < len(reps); i++ {
 		for j := i; j < len(reps); j++ {
 			a, b := VTByName(reps[i][0]), VTByName(reps[j][0])
+			if a.Class == "embedded" && a.Name == b.Name {
+				continue // the same message cannot be embedded twice
+			}
 			fa, ea, oa := shapeField(a, reps[i][1], "A", 1)
 			fb, eb, ob := shapeField(b, reps[j][1], "Ab", 2)
 			root := &dsl.Message{Name: "Root"}
